@@ -37,12 +37,14 @@ package limit_test
 
 import (
 	"fmt"
+	"reflect"
 	"sort"
 	"sync"
 	"sync/atomic"
 	"time"
 
 	"github.com/alicebob/miniredis/v2"
+	"github.com/alicebob/miniredis/v2/proto"
 	"github.com/alicebob/miniredis/v2/server"
 	"github.com/gotid/god/lib/logx"
 	"github.com/gotid/god/lib/store/redis"
@@ -70,7 +72,102 @@ type c08Server struct {
 	mode  atomic.Int32
 	mu    sync.Mutex
 	hole  chan struct{}  // black hole: commands received wait here until the outage ends (under mu)
-	evals map[string]int // EVAL commands executed by the server, per KEYS[1]
+	evals map[string]int // EVAL / EVALSHA commands executed by the server, per KEYS[1]
+	auth  bool           // requirepass c08Pass
+
+	// one-shot fault at command granularity (see c08Fault); trig/fack are made
+	// outside the bubbles: the server's connection goroutine asks a goroutine of
+	// the case's bubble to cancel the caller's context and waits until it has
+	fault *c08Fault // under mu
+	trig  chan struct{}
+	fack  chan struct{}
+}
+
+// Faults at command granularity. A fault is armed for ONE redis key; "a command
+// of the take" is any command that carries that key as an argument (whatever
+// the command is: EVAL, EVALSHA, INCR, EXPIRE, SET ...), and the fault fires at
+// the at-th such command that reaches the server after arming.
+const (
+	c08FNone          int32 = iota
+	c08FCancelExec          // the caller's context is cancelled when the server has received the command (the client hung up mid-request); the server still executes it
+	c08FCancelSwallow       // same, but the command is neither executed nor answered (it was lost on the way)
+	c08FErr                 // answered with an error reply go-redis does not retry; not executed
+	c08FGarble              // executed, but the reply reaches the client preceded by bytes that are no RESP reply (broken middlebox): protocol error at the client, no retry
+	c08FLoading             // answered -LOADING, not executed: go-redis retries after a back-off (bubble time)
+	c08FBadStr              // answered +OK, not executed (a proxy / a wrong script behind the key)
+	c08FBadInt              // answered :7, not executed
+)
+
+type c08Fault struct {
+	key   string
+	at    int
+	kind  int32
+	seen  int
+	fired bool
+	done  chan struct{} // closed when the server is through with the command that fired (made on the helper goroutine)
+}
+
+func c08HasArg(args []string, key string) bool {
+	for _, a := range args {
+		if len(a) == len(key) && a == key {
+			return true
+		}
+	}
+	return false
+}
+
+// arm installs a one-shot fault (helper goroutine: the channel must not belong to a bubble).
+func (s *c08Server) arm(key string, at int, kind int32) {
+	s.do(func() {
+		s.mu.Lock()
+		s.fault = &c08Fault{key: key, at: at, kind: kind, done: make(chan struct{})}
+		s.mu.Unlock()
+	})
+}
+
+// disarm removes the fault. fired: it fired; seen: commands of the take that
+// reached the server; ok=false: the server did not get through with the fired
+// command within 5 s of real time (machine stalled).
+func (s *c08Server) disarm() (fired bool, seen int, ok bool) {
+	ok = true
+	s.do(func() {
+		s.mu.Lock()
+		f := s.fault
+		s.fault = nil
+		s.mu.Unlock()
+		if f == nil {
+			return
+		}
+		fired, seen = f.fired, f.seen
+		if fired {
+			select {
+			case <-f.done:
+			case <-time.After(5 * time.Second):
+				ok = false
+			}
+		}
+	})
+	return
+}
+
+// loseScripts: the server that answers again is a new process (restart,
+// fail-over to a replica): its script cache is empty.
+func (s *c08Server) loseScripts() {
+	s.do(func() {
+		c, err := proto.Dial(s.addr)
+		if err != nil {
+			panic("c08: script flush: " + err.Error())
+		}
+		defer c.Close()
+		if s.auth {
+			if _, err := c.Do("AUTH", c08Pass); err != nil {
+				panic("c08: script flush: " + err.Error())
+			}
+		}
+		if r, err := c.Do("SCRIPT", "FLUSH"); err != nil || r != proto.Inline("OK") {
+			panic(fmt.Sprintf("c08: script flush: %q %v", r, err))
+		}
+	})
 }
 
 // Store kinds: how the *redis.Redis handed to the limiters is constructed. The
@@ -92,6 +189,9 @@ var c08StoreNames = [c08StoreKinds]string{"node", "cluster", "node+password", "c
 var (
 	c08SrvOnce [3]sync.Once
 	c08Srvs    [3]*c08Server
+	// c08WarmupErr: a store built from the configuration could not reach its
+	// healthy server; reported by every token case that uses the server
+	c08WarmupErr string
 )
 
 func c08StoreOpts(kind int) []redis.Option {
@@ -157,7 +257,7 @@ func (s *c08Server) hook(c *server.Peer, cmd string, args ...string) bool {
 	case c08BadReply:
 		// the script "answers" with something that is not its 0/1 (a proxy or a
 		// wrong script behind the key); every other command works
-		if cmd == "EVAL" {
+		if cmd == "EVAL" || cmd == "EVALSHA" {
 			c.WriteInline("OK")
 			return true
 		}
@@ -174,12 +274,82 @@ func (s *c08Server) hook(c *server.Peer, cmd string, args ...string) bool {
 		c.Close()
 		return true
 	}
-	if cmd == "EVAL" && len(args) >= 3 {
+	if kind, f := s.faultFor(c, args); kind != c08FNone {
+		defer close(f.done)
+		switch kind {
+		case c08FErr:
+			c.WriteError("ERR injected fault: command refused")
+			return true
+		case c08FLoading:
+			c.WriteError("LOADING Redis is loading the dataset in memory")
+			return true
+		case c08FBadStr:
+			c.WriteInline("OK")
+			return true
+		case c08FBadInt:
+			c.WriteInt(7)
+			return true
+		case c08FCancelSwallow, c08FCancelExec:
+			// a goroutine of the case's bubble cancels the caller's context; go on
+			// when it has (the time-out is a safety net for a caller that has
+			// already gone; no verdict depends on it)
+			select {
+			case s.trig <- struct{}{}:
+				<-s.fack
+			case <-time.After(5 * time.Second):
+			}
+			if kind == c08FCancelSwallow {
+				return true
+			}
+		case c08FGarble:
+			c.WriteRaw("?reply garbled on the way\r\n")
+		}
+		// executed here and now (the nested call passes this hook: the fault has
+		// fired), so that "the server is through with it" is observable (f.done)
+		s.mr.Server().Dispatch(c, append([]string{cmd}, args...))
+		return true
+	}
+	if (cmd == "EVAL" || cmd == "EVALSHA") && len(args) >= 3 {
 		s.mu.Lock()
 		s.evals[args[2]]++
 		s.mu.Unlock()
 	}
 	return false
+}
+
+// c08Nested: the command comes from redis.call() inside a script that the server
+// is executing (miniredis sends those through the same dispatcher, marked in its
+// connection context), not from the network.
+func c08Nested(c *server.Peer) bool {
+	if c.Ctx == nil {
+		return false
+	}
+	v := reflect.ValueOf(c.Ctx)
+	if v.Kind() == reflect.Ptr {
+		v = v.Elem()
+	}
+	if v.Kind() != reflect.Struct {
+		return false
+	}
+	f := v.FieldByName("nested")
+	return f.IsValid() && f.Kind() == reflect.Bool && f.Bool()
+}
+
+// faultFor: does the armed fault fire at this command? Only commands that
+// arrive over the network count: a script runs atomically inside the server.
+func (s *c08Server) faultFor(c *server.Peer, args []string) (int32, *c08Fault) {
+	s.mu.Lock()
+	defer s.mu.Unlock()
+	f := s.fault
+	if f == nil || f.fired || !c08HasArg(args, f.key) || c08Nested(c) {
+		return c08FNone, nil
+	}
+	f.seen++
+	if f.seen != f.at {
+		return c08FNone, nil
+	}
+	f.fired = true
+	return f.kind, f
 }
 
 // c08StartServer: must first be called OUTSIDE a bubble (it is: from the Test
@@ -195,7 +365,8 @@ func c08StartServer(idx int, auth bool, kinds ...int) *c08Server {
 		if auth {
 			mr.RequireAuth(c08Pass)
 		}
-		s := &c08Server{mr: mr, addr: mr.Addr(), req: make(chan func()), ack: make(chan struct{}), evals: map[string]int{}}
+		s := &c08Server{mr: mr, addr: mr.Addr(), req: make(chan func()), ack: make(chan struct{}), evals: map[string]int{}, auth: auth,
+			trig: make(chan struct{}), fack: make(chan struct{})}
 		mr.Server().SetPreHook(s.hook)
 		go func() {
 			for f := range s.req {
@@ -204,8 +375,21 @@ func c08StartServer(idx int, auth bool, kinds ...int) *c08Server {
 			}
 		}()
 		for _, k := range kinds {
-			if !redis.New(s.addr, c08StoreOpts(k)...).Ping() {
-				panic("c08: warm-up ping failed for store kind " + c08StoreNames[k])
+			// The first *redis.Redis of an address decides the options of the
+			// process-wide go-redis client (client managers keyed by address), as
+			// the first store a service builds from its configuration does: the
+			// warm-up store is built the way a service does it.
+			conf := redis.Config{Host: s.addr, Type: redis.NodeType}
+			if k == c08StoreCluster || k == c08StoreClusterPass {
+				conf.Type = redis.ClusterType
+			}
+			if auth {
+				conf.Pass = c08Pass
+			}
+			if err := conf.Validate(); err != nil {
+				c08WarmupErr = "redis.Config.Validate: " + err.Error()
+			} else if !conf.NewRedis().Ping() {
+				c08WarmupErr = fmt.Sprintf("the first store of the process, built by redis.Config%+v.NewRedis() for a healthy server (store kind %s), cannot ping it", conf, c08StoreNames[k])
 			}
 		}
 		c08Srvs[idx] = s
@@ -237,6 +421,7 @@ func (s *c08Server) reset() {
 		s.mr.FlushAll()
 		s.mu.Lock()
 		s.evals = map[string]int{}
+		s.fault = nil
 		s.mu.Unlock()
 	})
 }
